@@ -259,7 +259,7 @@ def init_rule(ctx, p, K):
             return True
         if c.kind == "not" and c.args[0].kind == "truth":
             x = c.args[0].args[0]
-            return isinstance(x, Poly) and len(x.atoms()) == 1 and list(x.atoms())[0][0] == "i" and list(x.atoms())[0][1].endswith("blurring_mask_2d") and list(x.atoms())[0][2] == (a, b)
+            return isinstance(x, Poly) and len(x.atoms()) == 1 and list(x.atoms())[0][0] == "i" and list(x.atoms())[0][1].startswith("blurring_mask_2d_from#") and list(x.atoms())[0][2] == (a, b)
         return False
     rows = {}
     for s in S.stores:
@@ -308,7 +308,11 @@ def init_rule(ctx, p, K):
                     fname = inner[0][1]
                     mk = list(inner[0][2][0].atoms())
                     # frame[frame >= 0].shape[0] of the frame returned by the frame routine in this iteration
-                    good = fname.endswith(".frame") and fname.startswith("frame_at_coordinates_jit#") and len(mk) == 1 and mk[0][0] == "f" and mk[0][1] == "mask" \
+                    tag_, _, loc_ = fname.partition(".")
+                    sub_ = getattr(S, "sub", {}).get(tag_)
+                    first_ = sub_.ret[0].name if sub_ is not None and isinstance(sub_.ret, tuple) and sub_.ret and isinstance(sub_.ret[0], Ref) else None
+                    # the FIRST array returned by the frame routine (the index frame, not the kernel frame), whatever it is called inside
+                    good = loc_ == first_ and fname.startswith("frame_at_coordinates_jit#") and len(mk) == 1 and mk[0][0] == "f" and mk[0][1] == "mask" \
                         and repr(mk[0][2][0]) in (repr(Poly.sym(repr((fname, ">=", "0")))), repr(Poly.sym(repr(("0", "<=", fname)))))
         ctx.ob(rule, f.key + ":" + arr, good, where=f, node=s.node, construct=short(v), message="frame length must be the count of entries >= 0 of the frame just built")
 
